@@ -239,7 +239,7 @@ func runRingDegree(c *eng.Ctx, cf cfg, gapLog int) {
 func init() {
 	eng.Register(&eng.Monitor{
 		ID: "C04", Level: "exploration",
-		Rule: "cases = rlwe parameter sets (ring type, logN, 1..6 Q primes and 0..3 P primes of mixed sizes incl. primes whose bit length differs from round(log2 q), secret distribution); inside a case evaluation-key parameters (LevelQ, LevelP, BaseTwoDecomposition in {0,1..30}, Compressed) are drawn and each key-switching entry point (ApplyEvaluationKey, Relinearize, Automorphism, AutomorphismHoisted, AutomorphismHoistedLazy, GadgetProduct, GadgetProductLazy, GadgetProductHoisted(Lazy)) is run on ciphertexts at levels <= key level, in and out of the NTT domain; the phase under the target key minus the exactly transformed plaintext is measured. distinct key = (entry point, chain sizes, ring type, LevelQ, LevelP, w, compressed, ct level, IsNTT); non-trivial = the worst-case noise bound is below Q_level/8, so that a wrong digit count / payload / tail shows as a bound violation rather than being masked.",
+		Rule:  "cases = rlwe parameter sets (ring type, logN, 1..6 Q primes and 0..3 P primes of mixed sizes incl. primes whose bit length differs from round(log2 q), secret distribution); inside a case evaluation-key parameters (LevelQ, LevelP, BaseTwoDecomposition in {0,1..30}, Compressed) are drawn and each key-switching entry point (ApplyEvaluationKey, Relinearize, Automorphism, AutomorphismHoisted, AutomorphismHoistedLazy, GadgetProduct, GadgetProductLazy, GadgetProductHoisted(Lazy)) is run on ciphertexts at levels <= key level, in and out of the NTT domain; the phase under the target key minus the exactly transformed plaintext is measured. distinct key = (entry point, chain sizes, ring type, LevelQ, LevelP, w, compressed, ct level, IsNTT); non-trivial = the worst-case noise bound is below Q_level/8, so that a wrong digit count / payload / tail shows as a bound violation rather than being masked.",
 		Cases: cases,
 		Assumptions: []string{
 			"worst-case key-switch bound: sum over gadget rows of N*|digit|_inf*floor(B_e+1/2) divided by P, plus 1.5*(1+|s|_1) for the ModDown rounding (|digit| <= digit-group modulus for RNS digits, < 2^w for power-of-two digits); x2 in the conjugate-invariant ring",
